@@ -122,13 +122,14 @@ let parse_acc ws =
   | _ -> failwith "bad case"
 
 let why_str w = match int_of_z w with
-  | 0 -> "mempool_full" | 1 -> "bad-txns-inputs-missingorspent" | 2 -> "min_relay_fee_not_met" | n -> "why" ^ string_of_int n
+  | 0 -> "mempool_full" | 1 -> "bad-txns-inputs-missingorspent" | 2 -> "min_relay_fee_not_met" | 3 -> "TRUC-violation"
+  | n -> "why" ^ string_of_int n
 let state_str = function
   | Model.PS_valid -> "valid"
   | Model.PS_policy r -> "policy:" ^ reason_str r
   | Model.PS_not_child_with_parents -> "policy:package-not-child-with-parents"
   | Model.PS_tx_failed -> "tx:transaction_failed"
-  | Model.PS_other c -> "other:" ^ string_of_z c
+  | Model.PS_other c -> if int_of_z c = 1 then "policy:TRUC-violation" else "other:" ^ string_of_z c
 let member pool t =
   if Model.has_wtxid pool t.Model.p_wtxid then "w" else if Model.has_txid pool t.Model.p_txid then "t" else "-"
 let index_of_wtxid built w =
@@ -144,9 +145,9 @@ let show_acc (built, pre, pkg) =
   (* pre-state through single acceptance, as toy_prestate does, keeping the verdicts *)
   let pool, pre_res = List.fold_left (fun (pool, acc) t ->
       if Model.has_txid pool t.Model.p_txid then (pool, acc ^ "I") else
-        let (r, pool') = Model.toy_single utxo pool t in
+        let (r, pool') = Model.toy3_single utxo pool t in
         (pool', acc ^ (match r with Model.R_valid -> "V" | _ -> "I"))) ([], "") pre in
-  let (((st, fin), _log), pafter) = Model.toy_accept utxo pre pkg in
+  let (((st, fin), _log), pafter) = Model.toy3_accept utxo pre pkg in
   let rs = if pkg = [] then "none" else String.concat "," (List.map (fun t -> res_str built (Model.rm_find t.Model.p_wtxid fin)) pkg) in
   Printf.sprintf "pre=%s state=%s n=%d r=%s before=%s:%d after=%s:%d" (if pre_res = "" then "none" else pre_res) (state_str st)
     (List.length fin) rs (String.concat "" (List.map (member pool) built)) (List.length pool)
@@ -194,10 +195,22 @@ let model _ l =
   | "wf" :: _ -> show_wf (parse_wf ws)
   | "acc" :: _ -> show_acc (parse_acc ws)
   | _ -> "BADCASE"
-let holds _ c impl =
+(* C27 on the same scenarios (mode accept3): the mempool the implementation ended with satisfies the TRUC topology
+   invariant, recomputed by the model on the observed membership *)
+let holds_acc3 (built, _pre, _pkg) impl =
+  let ws = words impl in
+  let after = field "after" ws in
+  let mem = String.sub after 0 (String.index after ':') in
+  let size = int_of_string (String.sub after (String.index after ':' + 1) (String.length after - String.index after ':' - 1)) in
+  let pafter = List.filteri (fun i _ -> mem.[i] = 'w') built in
+  if List.length pafter <> size then "fail the mempool holds transactions that were never submitted"
+  else if Model.truc_holds pafter then "ok"
+  else "fail TRUC invariant violated by the mempool the implementation ended with"
+
+let holds args c impl =
   let ws = words c in
   match ws with
   | "wf" :: _ -> holds_wf (parse_wf ws) impl
-  | "acc" :: _ -> holds_acc (parse_acc ws) impl
+  | "acc" :: _ -> if args = ["accept3"] then holds_acc3 (parse_acc ws) impl else holds_acc (parse_acc ws) impl
   | _ -> "na"
 let () = main_loop ~model ~holds
